@@ -112,7 +112,9 @@ PROPS = {
         "sRGB primaries, where the cusp polynomial changes sector) x 6 lightnesses the real cusp search / gamut boundary runs on constants "
         "and z3 decides for EVERY saturation that linear RGB lies in [-4e-4, 1 + 2e-3].",
         "Trusted: z3. Okhsv/Okhwb -> RGB (Open obligations: no answer in 900 s) and RGB -> Okhsl/Okhsv/Okhwb/HSLuv (symbolic hue through "
-        "the degree >= 9 cusp search) are outside the claim, see DESIGN.md 9.4."),
+        "the degree >= 9 cusp search) are outside the claim, see DESIGN.md 9.4. Engine K adds bit-precise f32 kernels: a fully saturated "
+        "HSV / HSL / HWB colour keeps its largest component 1 and smallest 0 for EVERY f32 hue up to 1e6 degrees (a hue whose normal form "
+        "rounds onto 360 must not fall out of the sector table).", engines=("kani", "symx")),
     "C02": sprop(
         "Differential symbolic checking of every directly implemented conversion against an independent transcription of its published "
         "definition (CIE 15 with exact rational epsilon/kappa, the standards' transfer curves, Smith's hexcone HSV/HSL/HWB, Ottosson's "
